@@ -288,6 +288,15 @@ func (k *conc) taproot(q []int) (outKey []byte, parity byte, tweakedSecret []byt
 		node := tagged("TapLeaf", []byte{byte(lv)}, compactSize(len(scr)), scr)
 		for j := 0; j < m; j++ {
 			sib := sha([]byte(fmt.Sprintf("verif-c01-sibling/%d", j)))
+			if len(q) > 6 && q[6] >= 0 {
+				// leaf position: bit j of the pattern puts the sibling after (ff..) or before (00..) the node, so
+				// that both orders of the lexicographic TapBranch hash occur
+				if (q[6]>>uint(j%30))&1 == 1 {
+					sib[0] = 0xff
+				} else {
+					sib[0] = 0x00
+				}
+			}
 			path = append(path, sib)
 			if bytes.Compare(node, sib) < 0 {
 				node = tagged("TapBranch", node, sib)
@@ -686,6 +695,13 @@ func (k *conc) schnorrSig(v []int) []byte {
 	var digest []byte
 	d := k.secret(id)
 	q := k.taprootOutput()
+	// designators 100 + m: as m, but over a digest whose tapleaf hash is not the leaf's (tapscript only): the value a
+	// verifier holds after the first TapBranch step of the control block, or an unrelated hash for a single-leaf tree
+	wrongLeaf := false
+	if m >= 100 && m < 190 && k.c.Tsv == "tap" {
+		wrongLeaf = true
+		m -= 100
+	}
 	switch {
 	case !defined || (ht&3 == 3 && k.c.Tx.Nomatch) || m == 99:
 		// no digest is defined (BIP341: the signature check fails).  The adversarial signature is one
@@ -707,6 +723,17 @@ func (k *conc) schnorrSig(v []int) []byte {
 			}
 			scr := k.serialize(ops, "")
 			ed.M_tapleaf_hash = tagged("TapLeaf", []byte{byte(q[4])}, compactSize(len(scr)), scr)
+			if wrongLeaf {
+				if _, _, _, _, path := k.taproot(q); len(path) > 0 {
+					if bytes.Compare(ed.M_tapleaf_hash, path[0]) < 0 {
+						ed.M_tapleaf_hash = tagged("TapBranch", ed.M_tapleaf_hash, path[0])
+					} else {
+						ed.M_tapleaf_hash = tagged("TapBranch", path[0], ed.M_tapleaf_hash)
+					}
+				} else {
+					ed.M_tapleaf_hash = tagged("TapLeaf", []byte("verif-c01-another-leaf"))
+				}
+			}
 			if m > 1 {
 				ed.M_codeseparator_pos = uint32(m - 2)
 			}
